@@ -212,7 +212,7 @@ func cmdCheck(args []string) int {
 		all = append(all, r.Obs...)
 	}
 	// lemmas
-	timeout := 10
+	timeout := 20 // quick tier: every obligation of the pinned tree is discharged in under 3 s on an idle machine; the margin is for loaded machines
 	requireAll := false
 	if *tier == "thorough" {
 		timeout = 60
